@@ -68,16 +68,16 @@ Proof.
     rewrite (Permutation_length P). simpl. pose proof (remove_first_length x L Hx). unfold L in *. lia.
 Qed.
 
-Lemma pb_loop_spec : forall fuel N b t next r t' r',
+Lemma pb_loop_spec : forall fuel N b t next r t' next' r',
   pb_inv t next -> length (leaf_ids t) <= N ->
-  pb_loop fuel N b t next r = Done t' r' ->
-  (exists next', pb_inv t' next') /\ length (leaf_ids t') = N.
+  pb_loop fuel N b t next r = Done (t', next') r' ->
+  pb_inv t' next' /\ length (leaf_ids t') = N.
 Proof.
-  induction fuel as [|f IH]; intros N b t next r t' r' I Hle H; simpl in H.
+  induction fuel as [|f IH]; intros N b t next r t' next' r' I Hle H; simpl in H.
   - destruct (N <=? length (leaf_ids t)) eqn:E; [|discriminate]. inversion H; subst. apply Nat.leb_le in E.
-    split; [eauto|lia].
+    split; [assumption|lia].
   - destruct (N <=? length (leaf_ids t)) eqn:E.
-    + inversion H; subst. apply Nat.leb_le in E. split; [eauto|lia].
+    + inversion H; subst. apply Nat.leb_le in E. split; [assumption|lia].
     + apply Nat.leb_gt in E. step H. step H. apply d_choice_Done in Hs0. destruct Hs0 as [Hi _].
       destruct (pb_step t next a a0 I Hi) as [I' Hl]. unfold pb_next in *.
       eapply IH; [exact I'| |exact H]. rewrite Hl. lia.
@@ -89,7 +89,7 @@ Proof.
   induction fuel as [|f IH]; intros N b t next r I Hle; simpl.
   - destruct (N <=? length (leaf_ids t)) eqn:E; [discriminate|]. apply Nat.leb_gt in E. lia.
   - destruct (N <=? length (leaf_ids t)) eqn:E; [discriminate|]. apply Nat.leb_gt in E.
-    intro H. apply bnd_NoFuel in H. destruct H as [H|(w & r1 & _ & H)]; [eapply d_exp_fuel; eauto|].
+    intro H. apply bnd_NoFuel in H. destruct H as [H|(w & r1 & _ & H)]; [eapply expovariate_fuel; eauto|].
     apply bnd_NoFuel in H. destruct H as [H|(i & r2 & Hc & H)]; [eapply d_choice_fuel; eauto|].
     apply d_choice_Done in Hc. destruct Hc as [Hi _].
     destruct (pb_step t next w i I Hi) as [I' Hl]. unfold pb_next in *.
@@ -116,9 +116,9 @@ Theorem pure_birth_spec_proved : forall N b script t r,
   (exists D, forall x q, In (x, q) (depths t) -> q == D)%Q.
 Proof.
   intros N b script t r HN H. unfold pb_sim, pb_run in H.
-  destruct (Qeq_bool b 0); [discriminate|].
-  step H. assert (H1 : length (leaf_ids (bleaf 0 0%Q)) <= N) by (simpl; lia).
-  destruct (pb_loop_spec _ _ _ _ _ _ _ _ pb_init_inv H1 Hs) as [[next I] Hlen].
+  step H. destruct a as [a next]. assert (H1 : length (leaf_ids (bleaf 0 0%Q)) <= N) by (simpl; lia).
+  destruct (pb_loop_spec _ _ _ _ _ _ _ _ _ pb_init_inv H1 Hs) as [I Hlen].
+  cbv zeta in H. cbn [fst] in H.
   step H. rewrite Hlen, Nat.leb_refl in H. apply ret_Done in H. destruct H as [<- _].
   set (L := leaf_ids a) in *. set (t1 := add_len_set L a0 a).
   assert (E1 : ids t1 = ids a) by (unfold t1; rewrite add_len_set_relabel; apply relabel_ids).
@@ -145,9 +145,9 @@ Qed.
 
 Theorem pb_fuel_proved : forall N b script, pb_sim N b script <> NoFuel.
 Proof.
-  intros N b script H. unfold pb_sim, pb_run in H. destruct (Qeq_bool b 0); [discriminate|].
+  intros N b script H. unfold pb_sim, pb_run in H.
   apply bnd_NoFuel in H. destruct H as [H|(t & r1 & _ & H)].
   - revert H. apply pb_loop_fuel; [apply pb_init_inv|]. simpl. lia.
-  - apply bnd_NoFuel in H. destruct H as [H|(w & r2 & _ & H)]; [eapply d_exp_fuel; eauto|].
+  - apply bnd_NoFuel in H. destruct H as [H|(w & r2 & _ & H)]; [eapply expovariate_fuel; eauto|].
     destruct (_ <=? _); discriminate.
 Qed.
